@@ -985,8 +985,9 @@ def r128(rep: Report, ctx: Ctx) -> None:
              "direction; kill flags and the lonely merge of a gate are "
              "derived per path", 21)
     check_table(rep, ctx, "R1.28", NODE_TABLE, list(NODE_TABLE))
-    from .walkspec import GRAPH_TABLE
+    from .walkspec import GRAPH_TABLE, INGEST_TABLE
     check_table(rep, ctx, "R1.28", GRAPH_TABLE, list(GRAPH_TABLE))
+    check_table(rep, ctx, "R1.28", INGEST_TABLE, list(INGEST_TABLE))
     # outgoing logic is resolved against the OUTGOING neighbours: whatever
     # reaches the loader as its map when the direction is not "incoming"
     from .effspec import effects
